@@ -165,7 +165,7 @@ Spec == Init /\ [][Next]_vars /\ WF_vars(Next)
 TypeOK == /\ out \in {""} \cup AnyMof \cup
                      {"OSError", "AttributeError", "IndexError", "ValueError",
                       "TypeError", "CIMError", "RecursionError", "KeyError",
-                      "OverflowError"}
+                      "OverflowError", "UnicodeEncodeError"}
           /\ Len(stack) <= MaxDepth
 
 ImplRefinesReq == (phase = "bad" /\ out # "") => out \in Admissible(ses)
